@@ -25,7 +25,10 @@ type Taint struct {
 	FollowField func(fv *types.Var) bool
 	// Scope, when set, confines the flow to these functions (no parameter binding into, and no
 	// return to, functions outside it).
-	Scope   func(fn *ssa.Function) bool
+	Scope func(fn *ssa.Function) bool
+	// PhiEdge, when set, is asked for every φ edge a tainted value arrives on; false stops the flow
+	// along that edge (the edge is only taken under a condition that makes the value harmless).
+	PhiEdge func(phi *ssa.Phi, edge int, v ssa.Value) bool
 	Hits    []TaintHit
 	work    []ssa.Value
 	fieldT  map[*types.Var]string
@@ -80,7 +83,19 @@ func (t *Taint) Run() {
 				}
 			}
 			switch x := u.(type) {
-			case *ssa.Phi, *ssa.ChangeType, *ssa.Convert, *ssa.MakeInterface, *ssa.ChangeInterface, *ssa.TypeAssert, *ssa.Extract, *ssa.Slice, *ssa.Index, *ssa.Field, *ssa.BinOp:
+			case *ssa.Phi:
+				pass := t.PhiEdge == nil
+				if !pass {
+					for i, e := range x.Edges {
+						if e == v && t.PhiEdge(x, i, v) {
+							pass = true
+						}
+					}
+				}
+				if pass {
+					t.Seed(x, why)
+				}
+			case *ssa.ChangeType, *ssa.Convert, *ssa.MakeInterface, *ssa.ChangeInterface, *ssa.TypeAssert, *ssa.Extract, *ssa.Slice, *ssa.Index, *ssa.Field, *ssa.BinOp:
 				t.Seed(x.(ssa.Value), why)
 			case *ssa.UnOp:
 				if x.Op != token.MUL || isAddrOfTainted(x, v) {
